@@ -451,6 +451,9 @@ def build_source(case, prelude: str) -> str:
         f"            if d == 'ser':\n                res[d] = observe_path(d, {ser}, VALUE, STRUCT, LEAF_SER)\n"
         f"            else:\n                res[d] = observe_path(d, {de}, WIRE, STRUCT, LEAF_DE)\n"
         "        except Exception as e:\n            res[d] = {'error': errname(e)}\n"
+        "    try:\n        from harness.props.c10_paths import real_valuations\n"
+        f"        res['vals'] = real_valuations(globals(), {ncls})\n"
+        "    except Exception as e:\n        res['vals_error'] = errname(e)\n"
         "    return res\n")
     return "\n".join(L)
 
@@ -536,6 +539,22 @@ def valuation(t, d: str) -> str:
     return out
 
 
+def real_valuations(ns: dict, ncls: int) -> dict:
+    """run inside a path case's module: for its REAL classes C0..C<ncls-1> the handler tests that hold for the class
+    object itself and for the resolved declared type of each link field (child / nxt<j> / kids<j>)"""
+    import typing
+    out = {}
+    for ci in range(ncls):
+        c = ns[f"C{ci}"]
+        hints = typing.get_type_hints(c, ns, include_extras=True)
+        for side in ("pack", "unpack"):
+            out[f"{ci}:cls:{side}"] = true_tests(c, side)
+            for fname, t in hints.items():
+                if fname != "x":
+                    out[f"{ci}:{fname}:{side}"] = true_tests(t, side)
+    return out
+
+
 _STANDIN = {}
 
 
@@ -583,8 +602,15 @@ def coq_sval(variant, m):
     }[variant]
 
 
-def coq_case(case, d, obs) -> str:
-    """(dir, prims tables, root ctx, path, position map, observation)"""
+def coq_case(case, d, obs, vals=None) -> str:
+    """(dir, prims tables, root ctx, path, position map, observation); vals: real_valuations of the case's real classes
+    (the valuations of class / link-field positions are computed on stand-ins of the same shape without it)"""
+    side_ = "pack" if d == "ser" else "unpack"
+
+    def rv(key, standin):
+        if vals is not None and f"{key}:{side_}" in vals:
+            return "(memv [" + "; ".join(vlib.coq_str(x) for x in vals[f"{key}:{side_}"]) + "])"
+        return valuation(standin, d)
     term = Term(case["type"])
     entry, slots = case["entry"], case["slots"]
     ids = {}
@@ -670,27 +696,31 @@ def coq_case(case, d, obs) -> str:
     # self_list -> Tuple[Self, ...]: a tuple site is not a translated descent site; it is modelled as an element step
     term_decl = tid(term.top)
     first_decl = None
+    selfj = {}
     for k, (ln, c) in enumerate(seqs):
         vinner = []
+        j = selfj.get(c, 0)
+        if ln in ("self_opt", "self_list"):
+            selfj[c] = j + 1
         if ln == "field":
             d0, inner = cls[c + 1], []
         elif ln == "field_coll":
             # List['C'] / Dict[str, 'C']: a collection node (exact key 160+c, origin 170/171), then its element
             d0, inner = f"(KObj {160 + c})", [f"NType TElement {cls[c + 1]}"]
-            vinner = [f"XType {valuation(_ty.List[int] if coll_kind == 'list' else _ty.Dict[str, int], d)} {cls[c + 1]}"]
+            vinner = [f"XType {rv(f'{c}:child', _ty.List[int] if coll_kind == 'list' else _ty.Dict[str, int])} {cls[c + 1]}"]
             org.append(f"((KObj {160 + c}), (KObj {170 if coll_kind == 'list' else 171}))")
         elif ln == "self_opt":
             d0, inner = kopt, [f"NType TOptional {kself}"]
-            vinner = [f"XType {valuation(_ty.Optional[_ty.Self], d)} {kself}"]
+            vinner = [f"XType {rv(f'{c}:nxt{j}', _ty.Optional[_ty.Self])} {kself}"]
         else:
             d0, inner = ktup, [f"NType TTupleItem {kself}"]
-            vinner = [f"XType {valuation(_ty.Tuple[_ty.Self, ...], d)} {kself}"]
+            vinner = [f"XType {rv(f'{c}:kids{j}', _ty.Tuple[_ty.Self, ...])} {kself}"]
         if first_decl is None:
             first_decl = d0
         else:
             path.append(f"NField {'true' if prev_self else 'false'} no_fieldopts {d0}")
             vpath.append(f"XSelf {valuation(_ty.Self, d)} no_fieldopts {d0}" if prev_self
-                         else f"XData {valuation(standin_dataclass(entry), d)} no_fieldopts {d0}")
+                         else f"XData {rv(f'{c}:cls', standin_dataclass(entry))} no_fieldopts {d0}")
         path += inner
         vpath += vinner
         prev_self = ln in ("self_opt", "self_list")
@@ -700,7 +730,7 @@ def coq_case(case, d, obs) -> str:
     else:
         path.append(f"NField {'true' if prev_self else 'false'} {fopts} {term_decl}")
         vpath.append(f"XSelf {valuation(_ty.Self, d)} {fopts} {term_decl}" if prev_self
-                     else f"XData {valuation(standin_dataclass(entry), d)} {fopts} {term_decl}")
+                     else f"XData {rv(f'{ci}:cls', standin_dataclass(entry))} {fopts} {term_decl}")
         root_f = "no_fieldopts"
     base_len = len(path)
     for nd in term.nodes[:-1]:
